@@ -900,8 +900,8 @@ COMMUTING = (
 _QT = float(os.environ.get('C06_QUICK_TIME', '100') or 100)
 
 SUBCHECKS = [
-    SubCheck('api', lambda: SPEC, run_api, quick=1000, thorough=21770, enumerate=enumerate_api, quick_time=_QT, thorough_time=1100.0),
-    SubCheck('eqhash', lambda: SPEC, run_eq, quick=250, thorough=4530, enumerate=enumerate_eq, quick_time=_QT, thorough_time=1100.0),
+    SubCheck('api', lambda: SPEC, run_api, quick=1000, thorough=10880, enumerate=enumerate_api, quick_time=_QT, thorough_time=1100.0),
+    SubCheck('eqhash', lambda: SPEC, run_eq, quick=250, thorough=2260, enumerate=enumerate_eq, quick_time=_QT, thorough_time=1100.0),
 ]
 
 def chain_names(spec):
